@@ -1,7 +1,7 @@
 (* Extraction of the FDL station model and its monitors.  ExtrOcamlBasic only. *)
 Require Extraction.
 Require ExtrOcamlBasic.
-From PB Require Telegram Phy TokenRing Params Fdl FdlOracle FdlPrompt FdlRing StdRates.
+From PB Require Telegram Phy TokenRing Params Fdl FdlOracle FdlPrompt FdlRing FdlSweep StdRates.
 Extraction Language OCaml.
 Extraction "model_fdl.ml"
   Fdl.poll_traced Fdl.poll Fdl.fdl_new Fdl.set_online Fdl.set_offline Fdl.set_passive
@@ -11,6 +11,7 @@ Extraction "model_fdl.ml"
   StdRates.rates_standard_ok StdRates.expects_reply_standard_ok
   FdlPrompt.pmonitor FdlPrompt.prule_prop
   FdlRing.rmonitor FdlRing.rrule_prop
+  FdlSweep.smonitor FdlSweep.srule_prop
   FdlOracle.monitor FdlOracle.rule_prop FdlOracle.mon_poll FdlOracle.delivered
   Tables.req_from_byte Tables.resp_state_from_byte Tables.resp_status_from_byte
   Tables.req_to_byte Tables.resp_state_to_byte Tables.resp_status_to_byte
